@@ -159,6 +159,12 @@ def handleCl (toks impl : List String) : String :=
             else if h = 0 ∧ exit = 0 then "VIOL clause=cl.exit_status why=no-laps"
             else s!"OK nt={if h > 0 then 1 else 0} cls=laptimes"
           | _, _ => "BAD"
+        else if cname == "gopro.convert" then
+          -- the command does what the library does for the effective options (encoder invocations,
+          -- resulting tree and success/failure compared on the implementation side)
+          let gc := (field impl "gc").getD "na"
+          if gc == "same" ∨ gc == "na" then "OK nt=1 cls=goproconvert"
+          else s!"VIOL clause=cl.gopro_pipeline got={gc}"
         else "OK nt=1 cls=precedence"
     | .unmodelled, _ => "SKIP reason=unmodelled"
     | _, _ => "CORR clause=cl.model_vs_spec"
